@@ -1,4 +1,4 @@
-import FatVerif.Proofs.DirReadSim4
+import FatVerif.Proofs.DirReadSim9
 /-! # C01 (simulation) — the effectful directory READER is the pure reader on the bytes of the image
 
 The directory code of the model (`Model/DirOps.lean`, programs over a device) and the slot-list algebra
@@ -7,10 +7,18 @@ forward evaluation theorems: on a device on which no fault is scheduled, the pro
 `listDir`, `findEntryG`, `findEntry` RETURN what the pure functions compute from the slots of the image, and leave image,
 log, mounted state and fault schedule alone (`Evals p d v := ∃ d', run p d = (.ok v, d') ∧ SameStore d d'`).
 
-Scope of this file: the FIXED ROOT directory of a FAT12/16 volume (`rootDirStream fs = .root (rootSliceOf fs)`), whose
-slots are the 32-byte records of the root region `[(firstDataSector - rootDirSectors) * bps, + rootDirSectors * bps)`.
-Cluster-chain directories (FAT32 root, sub-directories: `File::read` across cluster boundaries through the FAT) are not
-covered yet; nor are the writes. -/
+Part 1: the FIXED ROOT directory of a FAT12/16 volume (`rootDirStream fs = .root (rootSliceOf fs)`), whose slots are the
+32-byte records of the root region `[(firstDataSector - rootDirSectors) * bps, + rootDirSectors * bps)`.
+
+Part 2 (section "cluster-chain directories"): sub-directories and the root of FAT32 — `File::read` across cluster
+boundaries, following the chain of the decoded FAT of the image (`FileSim.tabView`); the slots are those of the clusters
+of the chain, in chain order (`chainSlots`). Both parts are instances of one generic development
+(`DirSrc`, Proofs/DirReadSim5–9). Here the evaluation relation is `Reads`: the destructor of the iterator's clone of a
+cluster-chain directory calls `flush` on the storage, so the log gains `flush` records; image, mounted state, fault
+schedule and WRITE records are untouched (`SameVol`). Hypothesis kept for cluster-chain directories:
+`update_accessed_date` is off or the handle has no directory entry (FAT32 root) — with the option on, reading a
+sub-directory stamps its entry and the destructor WRITES it (that is the library's behaviour, not covered here).
+The writes (`write_entry`, `remove`, …) are not covered yet. -/
 namespace FatVerif.DirSim
 
 /-- the slots of the fixed root directory of a volume with geometry `fs`, as a function of the image -/
@@ -178,6 +186,120 @@ theorem listDir_root_empty {d : Dev} {N : Nat} (h : RootReadable d N)
   rw [hempty] at hsim
   exact hsim
 
+/-! ## cluster-chain directories (sub-directories, the root of FAT32) -/
+
+open FatVerif.FileSim FatVerif.Fat in
+/-- the standing hypotheses for the directory whose first cluster is `c0` and whose handle carries the editor `ent`
+    (`none`: the root of FAT32): `ChainDir` (no fault scheduled, layout `Geo`, `chain` is the chain of `c0` in the
+    decoded FAT of the image and lies inside the table, cluster size a multiple of 32, the handle is a directory's,
+    reads do not stamp it) and fewer slots than the scan fuel -/
+structure ChainReadable (d : Dev) (c0 : Nat) (ent : Option DirEntryEditor) (chain : List Nat) : Prop where
+  dir : ChainDir d (FileH.new (some c0) ent) c0 chain
+  fuel : chain.length * (d.fs.clusterSize / 32) < dirFuel d.fs
+
+/-- the stream of that directory positioned at slot `i` -/
+def chainAt (fs : FsState) (c0 : Nat) (ent : Option DirEntryEditor) (chain : List Nat) (i : Nat) : DirStream :=
+  chainS (FileH.new (some c0) ent) chain fs.clusterSize (32 * i)
+
+/-- at slot 0 this is the freshly opened directory (`Dir::new(File::new(Some(c0), entry))`) -/
+theorem chainAt_zero (fs : FsState) (c0 : Nat) (ent : Option DirEntryEditor) (chain : List Nat) :
+    chainAt fs c0 ent chain 0 = .file (FileH.new (some c0) ent) := rfl
+
+section chain
+variable {d : Dev} {c0 : Nat} {ent : Option DirEntryEditor} {chain : List Nat}
+
+theorem ChainReadable.slots_eq (h : ChainReadable d c0 ent chain) :
+    srcSlots d.img (chainSrc d.fs chain) (chain.length * (d.fs.clusterSize / 32)) = chainSlots d.fs d.img chain :=
+  srcSlots_chain d.fs d.img h.dir.geo.cs_pos h.dir.cs32 chain
+
+/-- **`readSlot_sim`, cluster chain** (inside the allocated space): slot `i` of the clusters of the chain — also when
+    the slot is the first of the next cluster (the stream then follows the FAT link) -/
+theorem readSlot_chain_sim (h : ChainReadable d c0 ent chain) (i : Nat)
+    (hi : i < chain.length * (d.fs.clusterSize / 32)) :
+    Reads (readSlot (chainAt d.fs c0 ent chain i)) d
+      ((chainSlots d.fs d.img chain).getD i [], chainAt d.fs c0 ent chain (i + 1)) := by
+  have := h.dir.dirSrc.toByteSrc.readSlot d (SameVol.refl d) (32 * i) (by omega) (by omega)
+  rw [← h.slots_eq]
+  have hg := srcSlots_drop_getD d.img (chainSrc d.fs chain) (chain.length * (d.fs.clusterSize / 32)) 0 i
+    (by rw [List.drop_zero, srcSlots_length]; exact hi)
+  simp only [List.drop_zero, Nat.zero_add] at hg
+  rw [hg]
+  unfold chainAt
+  rw [show 32 * (i + 1) = 32 * i + 32 by omega]
+  exact this
+
+/-- **`readSlot_sim`, cluster chain** (at the end of the chain): the end-of-chain mark makes `File::read` return 0
+    bytes, `read_exact` fails with `UnexpectedEof`, `deserialize` returns the all-zero record and the stream stays -/
+theorem readSlot_chain_end (h : ChainReadable d c0 ent chain) :
+    Reads (readSlot (chainAt d.fs c0 ent chain (chain.length * (d.fs.clusterSize / 32)))) d
+      (List.replicate 32 0, chainAt d.fs c0 ent chain (chain.length * (d.fs.clusterSize / 32))) :=
+  h.dir.dirSrc.toByteSrc.readSlot_end d (SameVol.refl d)
+
+/-- **`readDirEntry_sim`, cluster chain** -/
+theorem readDirEntry_chain_sim (h : ChainReadable d c0 ent chain) (skipVolume : Bool) (i : Nat)
+    (hi : i ≤ chain.length * (d.fs.clusterSize / 32)) :
+    Reads (readDirEntry skipVolume (chainAt d.fs c0 ent chain i)) d
+      (((nextEntry d.fs.lfnAlloc skipVolume ((chainSlots d.fs d.img chain).drop i) i i
+          (LongNameBuilder.new d.fs.lfnAlloc)).1).map (toDirEntryS (chainSrc d.fs chain)),
+       chainAt d.fs c0 ent chain (nextEntry d.fs.lfnAlloc skipVolume ((chainSlots d.fs d.img chain).drop i) i i
+          (LongNameBuilder.new d.fs.lfnAlloc)).2) := by
+  rw [← h.slots_eq]
+  exact h.dir.dirSrc.readDirEntry_sim skipVolume i hi d (SameVol.refl d) h.fuel
+
+/-- **`listDir_sim`, cluster chain**: `Dir::iter()` on a sub-directory (or the FAT32 root) yields exactly the entries the
+    pure reader finds in the slots of the clusters of its chain; an entry's `entryPos` is the device offset of its short
+    slot (`chainSrc`: cluster offset + offset in the cluster) -/
+theorem listDir_chain_sim (h : ChainReadable d c0 ent chain) :
+    Reads (listDir (.file (FileH.new (some c0) ent))) d
+      ((readDirEntries d.fs.lfnAlloc true (chainSlots d.fs d.img chain)).map (toDirEntryS (chainSrc d.fs chain))) := by
+  rw [← h.slots_eq]
+  exact h.dir.dirSrc.listDir_sim h.fuel d (SameVol.refl d)
+
+/-- … in terms of the run: the result, and what is kept -/
+theorem listDir_chain_listing (h : ChainReadable d c0 ent chain) (ha : d.fs.lfnAlloc = true) :
+    ∃ d', run (listDir (.file (FileH.new (some c0) ent))) d =
+        (.ok ((DirSlots.listing (chainSlots d.fs d.img chain)).map (toDirEntryS (chainSrc d.fs chain))), d') ∧
+      d'.img = d.img ∧ d'.writesOf = d.writesOf ∧ d'.fs = d.fs ∧ d'.failAt = none := by
+  obtain ⟨d', hr, hs⟩ := listDir_chain_sim h
+  rw [ha] at hr
+  exact ⟨d', hr, hs.img, hs.writesOf, hs.fs, by rw [hs.failAt]; exact h.dir.failAt⟩
+
+/-- **`findEntryG_sim`, cluster chain** -/
+theorem findEntryG_chain_sim (h : ChainReadable d c0 ent chain) (env : Env) (name : String) (isDir : Option Bool)
+    (g : Names.Gen) :
+    Reads (findEntryG env (.file (FileH.new (some c0) ent)) name isDir (some g)) d
+      (((DirAlias.scan env.upper name.toList isDir
+          (readDirEntries d.fs.lfnAlloc true (chainSlots d.fs d.img chain)) g).1).map (toDirEntryS (chainSrc d.fs chain)),
+       some (DirAlias.scan env.upper name.toList isDir
+          (readDirEntries d.fs.lfnAlloc true (chainSlots d.fs d.img chain)) g).2) := by
+  rw [← h.slots_eq]
+  exact h.dir.dirSrc.findEntryG_scan h.fuel env name isDir g d (SameVol.refl d)
+
+/-- **`findEntry_sim`, cluster chain** (`find_entry(..)?`): succeeds with the entry the scan finds … -/
+theorem findEntry_chain_sim_ok (h : ChainReadable d c0 ent chain) (env : Env) (name : String) (isDir : Option Bool)
+    (g : Names.Gen) {e : LfnEntry}
+    (hs : (DirAlias.scan env.upper name.toList isDir
+      (readDirEntries d.fs.lfnAlloc true (chainSlots d.fs d.img chain)) g).1 = .ok e) :
+    Reads (findEntry env (.file (FileH.new (some c0) ent)) name isDir) d (toDirEntryS (chainSrc d.fs chain) e) := by
+  rw [← h.slots_eq] at hs
+  exact h.dir.dirSrc.findEntry_ok h.fuel env name isDir g hs d (SameVol.refl d)
+
+/-- … and fails with the scan's error otherwise -/
+theorem findEntry_chain_sim_error (h : ChainReadable d c0 ent chain) (env : Env) (name : String) (isDir : Option Bool)
+    (g : Names.Gen) {err : Err}
+    (hs : (DirAlias.scan env.upper name.toList isDir
+      (readDirEntries d.fs.lfnAlloc true (chainSlots d.fs d.img chain)) g).1 = .error err) :
+    FailsV (findEntry env (.file (FileH.new (some c0) ent)) name isDir) d err := by
+  rw [← h.slots_eq] at hs
+  exact h.dir.dirSrc.findEntry_error h.fuel env name isDir g hs d (SameVol.refl d)
+
+end chain
+
+/-- the root directory of a FAT32 volume is the cluster-chain directory of `root_cluster`, without an entry -/
+theorem rootDirStream_fat32 (fs : FsState) (h : fs.fatType = .fat32) :
+    rootDirStream fs = .file (FileH.new (some fs.rootCluster) none) := by
+  unfold rootDirStream; rw [h]
+
 /-! ## non-vacuity: a small FAT16 root directory with a long-named and a short-named entry -/
 
 namespace Ex
@@ -208,6 +330,54 @@ example : (run (listDir (rootAt Ex.dev.fs 0)) Ex.dev).1 =
       .ok ((DirSlots.listing (rootDirSlots Ex.dev.fs Ex.dev.img)).map (toDirEntry (rootSliceOf Ex.dev.fs).beginOff)) ∧
     ((DirSlots.listing (rootDirSlots Ex.dev.fs Ex.dev.img)).map (·.units)) =
       [Names.encodeUtf16 "Hello.txt".toList, []] := by
+  decide +kernel
+
+/-! ## non-vacuity: a sub-directory of two clusters (the listing crosses the cluster boundary through the FAT) -/
+
+namespace Ex2
+
+/-- geometry: 512-byte sectors and clusters, FAT = sector 1, root region = sector 2, clusters 2..5 = sectors 3..6 -/
+def fs : FsState :=
+  { fatType := .fat16, bps := 512, spc := 1, reserved := 1, fats := 1, spf := 1, totalClusters := 4,
+    firstDataSector := 3, rootEntries := 16, rootDirSectors := 1 }
+
+def deleted : List Nat := 0xE5 :: List.replicate 31 0
+
+/-- FAT: cluster 2 → 3 → end of chain. Cluster 2: the short slot of "B" and 15 deleted slots; cluster 3: the long-name
+    slot of "Hello.txt" and its short slot, then zeros -/
+def bytes : List Nat :=
+  List.replicate 512 0 ++
+  ([0xF8, 0xFF, 0xFF, 0xFF, 3, 0, 0xFF, 0xFF] ++ List.replicate 504 0) ++
+  List.replicate 512 0 ++
+  ((DirFileEntryData.new Ex.sfn2 0x10).serialize ++ (List.replicate 15 deleted).flatten) ++
+  ((lfnGenerate (Names.encodeUtf16 "Hello.txt".toList) (lfnChecksum Ex.sfn1)).flatten ++
+    (DirFileEntryData.new Ex.sfn1 0x20).serialize)
+
+def dev : Dev := { img := Img.ofBytes bytes 4096, fs := fs }
+
+end Ex2
+
+open FatVerif.FileSim FatVerif.Fat in
+/-- the hypotheses hold of the example: the directory starting at cluster 2 has the chain `[2, 3]` -/
+theorem Ex2.readable : ChainReadable Ex2.dev 2 none [2, 3] := by
+  have h2 : tabView Ex2.fs Ex2.dev.img 2 = .data 3 := by decide +kernel
+  have h3 : tabView Ex2.fs Ex2.dev.img 3 = .eoc := by decide +kernel
+  refine ⟨⟨rfl, ⟨by decide, by decide, by decide, by decide, by decide, by decide, by decide, by decide, by decide, by decide,
+    by decide⟩,
+    rfl, ?_, by decide, rfl, Or.inr rfl, (fun e he => by cases he), by decide, by decide⟩, by decide⟩
+  exact Chain.cons 2 3 [3] h2 (Chain.last 3 (fun n hn => by
+    have : tabView Ex2.dev.fs Ex2.dev.img 3 = .eoc := h3
+    rw [this] at hn; cases hn))
+
+/-- the run of `listDir` on it IS the pure listing of the slots of clusters 2 and 3: "B", then (from cluster 3, reached
+    through the FAT) the entry carrying the units of "Hello.txt"; its `entryPos` is byte 32 of cluster 3 = 2080 -/
+example : (run (listDir (.file (FileH.new (some 2) none))) Ex2.dev).1 =
+      .ok ((DirSlots.listing (chainSlots Ex2.dev.fs Ex2.dev.img [2, 3])).map
+        (toDirEntryS (chainSrc Ex2.dev.fs [2, 3]))) ∧
+    ((DirSlots.listing (chainSlots Ex2.dev.fs Ex2.dev.img [2, 3])).map (·.units)) =
+      [[], Names.encodeUtf16 "Hello.txt".toList] ∧
+    ((DirSlots.listing (chainSlots Ex2.dev.fs Ex2.dev.img [2, 3])).map
+        (fun e => (toDirEntryS (chainSrc Ex2.dev.fs [2, 3]) e).entryPos)) = [1536, 2080] := by
   decide +kernel
 
 end FatVerif.DirSim
